@@ -22,6 +22,16 @@ class UNamed(Variable):
     index: int
 
 
+@expr_dataclass(hash=False)
+class UHashless(Variable):
+    """decorated with hash=False (brings its own __hash__), subclass of a concrete node
+    with an added field"""
+    tag: object
+
+    def __hash__(self):
+        return hash(("UHashless", self.name, self.tag))
+
+
 class LegacyVar(Variable):
     """undecorated subclass of a dataclass node, no extra state"""
     mapper_method = "map_legacy_var"
@@ -55,7 +65,9 @@ class PureLegacy(Expression):
     mapper_method = "map_pure_legacy"
 
 
-USER_CLASSES = {"UTag": UTag, "UTag3": UTag3, "UNamed": UNamed, "LegacyVar": LegacyVar,
+USER_CLASSES = {"UTag": UTag, "UTag3": UTag3, "UNamed": UNamed, "UHashless": UHashless,
+                "LegacyVar": LegacyVar,
                 "LegacyVarX": LegacyVarX, "PureLegacy": PureLegacy}
 USER_FIELDS = {"UTag": ["e", "s"], "UTag3": ["e", "s", "any"], "UNamed": ["s", "ci"],
+               "UHashless": ["s", "any"],
                "LegacyVar": ["s"], "LegacyVarX": ["s", "any"], "PureLegacy": ["any", "any"]}
